@@ -19,6 +19,7 @@ PROPS['C03'] = dict(level='model_checking',
     H('stop_vs_stop_dereg', 'C03_stop.cpp', ['h_stop_a', 'h_stop_then_dereg'], 26, setup='h_setup_reg1', final='h_final_regd', desc='two request_stop callers, the second then deregisters the callback'),
     H('self_dereg_two_stoppers', 'C03_stop.cpp', ['h_stop_a', 'h_stop_b'], 26, setup='h_setup_reg3', final='h_final_self', desc='callback destroys its own registration while two threads request stop'),
     H('cross_dereg', 'C03_stop.cpp', ['h_stop_a', 'h_observer'], 20, setup='h_setup_reg14', final='h_final_cross', desc='callback deregisters another pending registration (3 registrations)'),
+  ] + [SEQ('adapter_%d' % c, 'C03_adapter.cpp', 'h_adapter', opts=dict(params=[c]), desc='inplace_stop_token_adapter over a move-stealing upstream token; stop %s' % ['never', 'before subscription', 'after registration', 'before and after'][c]) for c in range(4)] + [
   ])
 
 PROPS['C15'] = dict(level='model_checking',
@@ -66,7 +67,8 @@ PROPS['C05'] = dict(level='model_checking',
 PROPS['C12'] = dict(level='model_checking',
   bounds='sequential; every listed adaptor wraps a probe leaf at every child position (depth<=2 + one depth-3 nesting); query answers are symbolic 8-bit tags',
   outside='adaptors not in the catalogue (listed per harness); type-erased wrappers (see C18)',
-  harnesses=[SEQ('q_' + n, 'C12_queries.cpp', 'h_q_' + n, desc='queries through ' + n) for n in
+  harnesses=[SEQ('adapter_%d' % c, 'C03_adapter.cpp', 'h_adapter', opts=dict(params=[c]), desc='stop token handed to type-erased children (inplace_stop_token_adapter) over a move-stealing upstream token, case %d' % c) for c in range(4)] +
+            [SEQ('q_' + n, 'C12_queries.cpp', 'h_q_' + n, desc='queries through ' + n) for n in
      ['then', 'upon', 'let_value', 'let_error', 'sequence', 'finally', 'materialize', 'when_all', 'stop_when', 'unstoppable', 'with_query_value', 'nested']])
 
 EV = ['when_all', 'stop_when', 'let_value', 'finally']
